@@ -8,6 +8,7 @@
     append <p> <c> | insb <p> <new> <ref|-> | rm <p> <c>
     adde <p> <c> <allowed01> | addt <p> <t> <allowsText01> <nonempty01> | addc <p> <t> <allowsText01>
     setns <e> <key> <conv>          conv = o<val> | e<Enum>
+    rma <e> <known01> <tuple01> <allowed01> <key>      (removeAttribute: a style loses its style:name)
     regen <meta> <g> <t>            (__replaceGenerator: xml(), metaxml(), save())
     bytype <qn>  -> ok [ids]        (document-level getElementsByType; may rebuild the indexes)
     elbytype <id> <qn> -> ok [ids]  (element-level getElementsByType)
@@ -104,6 +105,10 @@ def handle (st : St) (line : String) : St × String :=
     match e.toNat?, key.toNat?, parseConv conv with
     | some e, some key, some conv => exec st [] (stepD (.tree (.setAttrNS e key conv)))
     | _, _, _ => bad
+  | ["rma", e, k, t, a, key] =>     -- e.removeAttribute(attr): same request line as drv_dom
+    match e.toNat?, bool01 k, bool01 t, bool01 a, key.toNat? with
+    | some e, some k, some t, some a, some key => exec st [] (stepD (.tree (.removeAttribute e k t a key)))
+    | _, _, _, _, _ => bad
   | ["regen", m, g, t] =>
     match m.toNat?, g.toNat?, t.toNat? with
     | some m, some g, some t => exec st [g, t] (stepD (.replaceGenerator m g t))
